@@ -233,6 +233,11 @@ class Closed(State):
             self.event_start()
         
         elif is_server_mode(self.association):
+            if (self.association.is_connected() and 
+                    self.is_set_release_signal_from_peer()):
+                self.event_responder_peer_disc()
+                return
+
             if self.has_recv_queue_message():
                 self.msg = self.get_message()
 
@@ -255,6 +260,14 @@ class Closed(State):
             cea = self.processor.create_answer(msg=self.msg)
             self.send_message(msg=cea)
             self.set_open_state(early_stage=True)
+
+
+    def event_responder_peer_disc(self) -> None:
+        closed_logger.debug("Event has been triggered.")
+
+        #: The peer left before sending its CER: releases the transport, 
+        #: which also ends the PeerStateMachine's thread.
+        self.association.close()
 
 
 class WaitConnAck(State):
@@ -584,7 +597,8 @@ class PeerStateMachine():
         if not self.is_running:
             self.is_running = True
 
-        while (self.is_running and not self.association.error_has_raised):
+        while (self.is_running and not self.association.error_has_raised 
+                               and not self.association._stop_threads):
             time.sleep(STATE_MACHINE_TICKER)
 
             self.current_state.run()
